@@ -28,6 +28,12 @@ theorem C08_gen_ttl :
     Gen.Forward.hopDropBelow = [("process_frame", 1), ("route_frame", 1)] ∧
     Gen.Forward.processDropsBroadcast = true := by decide
 
+/-- The acceptance tests of host NICs (with the destination-IP test of the repaired code) and the order of guards in
+`Router.receive_frame`, as regenerated from the source, are the ones the model implements (`hostAccepts`, `routerRecv`). -/
+theorem C08_gen_accept :
+    Gen.Forward.nicUnicastNeedsNodeIp = true ∧
+    Gen.Forward.routerReceiveOrder = ["on", "acl", "deny-return", "learn", "software-if-own-else-process"] := by decide
+
 /-! ### TTL: every receive and every routing hop lowers it by one; exhausted frames are not processed -/
 
 /-- potential of a frame: times it was accepted for processing so far + what its TTL still allows. -/
